@@ -35,6 +35,7 @@ def run(chk, replay=None):
         cfg = simple_cfg(random.Random(r.getrandbits(32)))
         hist = [gen_history(r) for _ in range(3)]
         j = dict(id=f"hist:{i}", cfg=cfg, history=hist)
+        if i % 4 == 2: j["carry"] = True        # each later episode is started from the previous episode's last graph state
         if i % 3 == 1: j["perturb"] = dict(kind="random", seed=r.getrandbits(16), p=0.5, max_ms=3)
         if i % 3 == 2: j["perturb"] = dict(kind="points", ms=40, points=r.choice([["sup:before_append"], ["sup:after_append"], ["sup:before_check"],
                                                                                   ["sup:before_append", "stop:after_flip"]]))
@@ -123,6 +124,16 @@ def run(chk, replay=None):
             for c, ms in ep["record"]["msgs"].items():
                 if ms and ms[0][0] != 0:
                     chk.violation("episode-receives-stale-message", f"episode {ei} connection {c} first message seq_out {ms[0][0]}", case)
+            # what the step functions and the user SEE (not only what the record says): the first step of every node runs with seq 0, and the step state
+            # returned by reset() has seq 0 - also when the episode was started from the previous episode's last graph state
+            first = {}      # smallest seq a node's step function saw in this episode (the host log may still receive a late entry of an earlier graph's thread)
+            for cl_ in ep.get("calls", []): first[cl_[0]] = min(first.get(cl_[0], cl_[1]), cl_[1])
+            for n, sq in first.items():
+                if sq != 0: chk.violation("episode-does-not-restart-at-seq-0", f"episode {ei}: no step of node {n} ran with step_state.seq = 0, the smallest was {sq}"
+                                          + (" (episode started from the previous episode's last graph state)" if j.get("carry") else ""), case); break
+            if ep["obs"] and "reset" in hist[ei] and hist[ei][0] == "reset" and ep["obs"][0].get("seq") != 0:
+                chk.violation("episode-does-not-restart-at-seq-0", f"episode {ei}: reset() returned a supervisor step state with seq {ep['obs'][0].get('seq')}", case)
+            if j.get("carry") and ei > 0: chk.feat("carried-graph-state"); continue       # carried node states: not a fresh episode, no model comparison
             model_cases.append((j["cfg"], rj["node_phase"], rj["conn_phase"], al.limits_of(j["cfg"], ep), 1 + ei))
             model_meta.append((j, ei, ep, case))
     if model_cases:
